@@ -8,6 +8,7 @@ package project
 // instantiates it with concrete strings and performs Write / Load / Write.
 
 import (
+	"strings"
 	"bufio"
 	"encoding/json"
 	"fmt"
@@ -57,6 +58,8 @@ var cfPaths = map[string][]string{
 	// an @ suffix that is not a major version of 2 or more is part of a clean path too
 	"atword": {"reqs/tool@next", "deploy/user@host", "example.com/lib@latest"},
 	"atodd":  {"reqs/lib@v1.5", "reqs/lib@2", "reqs/lib@v02", "x@y/lib"},
+	// an element that begins with @ (a scope directory) is not a version suffix
+	"atscope": {"@scope/pkg", "example.com/@org/lib", "@a/@b/c", "reqs/@x/y@v2"},
 	"percent": {"reqs/a%20b", "example.com/%v@v2", "reqs/100%"},
 }
 
@@ -127,6 +130,15 @@ func TestVerifConfig(t *testing.T) {
 			if cc.NReq > 1 {
 				k2 := pick(cc.Key2) + "2"
 				c.Requirements[k2] = RequirementConfig{Path: "example.com/other@v2", Version: "v2.3.4"}
+				// now and then: names that differ from one another only by letter case
+				if rnd.Intn(3) == 0 {
+					r2 := []rune(k2)
+					for i, v := range []string{strings.ToUpper(k2), strings.ToLower(k2), strings.ToUpper(string(r2[:1])) + string(r2[1:])} {
+						if _, ok := c.Requirements[v]; !ok {
+							c.Requirements[v] = RequirementConfig{Path: fmt.Sprintf("example.com/case%d", i), Version: "v1.0.0"}
+						}
+					}
+				}
 			}
 		}
 		ev := map[string]any{"ev": "RoundTrip", "cls": cc, "c": cfJSON(c), "c2": cfJSON(&Config{}), "werr": "", "lerr": "", "w2err": "", "same_bytes": false}
